@@ -41,6 +41,16 @@ mutual
     | kwargs                           -- the keyword arguments the router handed to the handler
     | urlArgs                          -- `request.url_args`
     | scookie (k : String)             -- `request.get_cookie(k, secret=...)`: a signed cookie, decoded
+    /-- read everything an accessor hands out (`what` = query, cookies, headers, forms, post, files,
+    params, urlargs): `sorted(request.<what>.items())` -/
+    | dump (what : String)
+    /-- obtain the object the accessor hands out and change it in place (add a key, drop a key, append
+    to a list value): the object is private to this request, so nothing else may notice -/
+    | mutate (what : String)
+    | envSet (k v : String)            -- `request.environ[k] = v`
+    | extSet (name v : String)         -- `app.request.name = v` (an extension attribute)
+    | extGet (name : String)           -- `getattr(app.request, name, None)`
+    | whoami                           -- which handler runs: the rule it was registered under
     | status (code : Int) (line : String) | rdStatus
     | setHdr (k v : String) | addHdr (k v : String) | rdHdr (k : String)
     | setCookie (k rendered : String) | ctype (v : String)
@@ -531,6 +541,38 @@ def envChangedPops (key : String) : List String :=
   else if key.startsWith "HTTP_" then ["headers", "cookies"]
   else []
 
+/-- obtain what the accessor `what` of `app.request` hands out (the cached view, in `rCache 0`'s environ) -/
+def obtain (a : AppId) (what : String) (k : Prog) : Prog :=
+  let queryGetter (ret : PVal → Prog) : Prog :=
+    envGet a .request "QUERY_STRING" fun _ =>
+    .step a (.fget .request "environ" rTmp) fun _ =>
+    .step a (.dOp rTmp (.set "ombott.request.get" (.str "<query>"))) fun _ => ret (.str "<query>")
+  let formsGetter (d : Nat) (ret : PVal → Prog) : Prog :=
+    reqPost a .request (d + 1) fun _ => environGet a .request "ombott.request.forms" fun v => ret v
+  if what == "query" then cacheIn a .request 0 "ombott.request.query" queryGetter fun _ => k
+  else if what == "cookies" then
+    cacheIn a .request 0 "ombott.request.cookies"
+      (fun ret => envGet a .request "HTTP_COOKIE" fun _ => ret (.str "<cookies>")) fun _ => k
+  else if what == "headers" then
+    cacheIn a .request 0 "ombott.request.headers"
+      (fun ret => .step a (.fget .request "environ" rWsgiHd) fun _ => ret (.str "<headers>")) fun _ => k
+  else if what == "forms" then cacheIn a .request 0 "ombott.request.forms" (formsGetter 0) fun _ => k
+  else if what == "post" then reqPost a .request 0 fun _ => k
+  else if what == "files" then
+    cacheIn a .request 0 "ombott.request.files"
+      (fun ret => reqPost a .request 1 fun _ => environGet a .request "ombott.request.files" fun v => ret v)
+      fun _ => k
+  else if what == "params" then
+    -- FormsDict(self.query, **self.forms)
+    cacheIn a .request 0 "ombott.request.params"
+      (fun ret =>
+        cacheIn a .request 1 "ombott.request.query" queryGetter fun _ =>
+        cacheIn a .request 1 "ombott.request.forms" (formsGetter 1) fun _ => ret (.str "<params>"))
+      fun _ => k
+  else if what == "urlargs" then
+    cacheIn a .request 0 "route.url_args" (fun ret => ret (.str "!RuntimeError")) fun _ => k
+  else k
+
 /-- one handler statement; `nest` serves a nested request (one level less of nesting); `cs` are the
 copies the handler has made so far (the handler's list `copies`) -/
 def hop (nest : Req → Prog → Prog) (a : AppId) (cs : List Nat) : HOp → (List Nat → Prog) → Prog
@@ -583,6 +625,22 @@ def hop (nest : Req → Prog → Prog) (a : AppId) (cs : List Nat) : HOp → (Li
     cacheIn a .request 0 "ombott.request.cookies"
       (fun ret => envGet a .request "HTTP_COOKIE" fun _ => ret (.str "<cookies>"))
       fun _ => .step a (.dOp (rCache 0) (.get ("#sc:" ++ c))) fun r => obsRead a (resVal r) (k cs)
+  | .dump what, k =>
+    obtain a what <|
+    -- what the view shows is a function of the request's own data (pseudo key `#dump:what` of the environ
+    -- the view was found in)
+    .step a (.dOp (rCache 0) (.get ("#dump:" ++ what))) fun r => obsRead a (resVal r) (k cs)
+  | .mutate what, k => obtain a what (k cs)
+  | .envSet key v, k =>
+    .step a (.fget .request "environ" rTmp) fun _ =>
+    .step a (.dOp rTmp (.set key (.str v))) fun _ => k cs
+  | .extSet name v, k =>
+    .step a (.fget .request "environ" rTmp) fun _ =>
+    .step a (.dOp rTmp (.set ("ombott.request.ext." ++ name) (.str v))) fun _ => k cs
+  | .extGet name, k =>
+    .step a (.fget .request "environ" rTmp) fun _ =>
+    .step a (.dOp rTmp (.get ("ombott.request.ext." ++ name))) fun r => obsRead a (resVal r) (k cs)
+  | .whoami, k => .step a (.dOp rEnviron (.get "#rule")) fun r => obsRead a (resVal r) (k cs)
   | .url, k => reqUrl a .request 0 fun v => obsRead a v (k cs)
   | .status code line, k => setStatus a code line (k cs)
   | .rdStatus, k => .step a (.fget .response "_status_line" rTmp) fun r => obsRead a (resVal r) (k cs)
